@@ -65,8 +65,13 @@ func CustomSpec(r *rand.Rand, alpn []string) (*utls.ClientHelloSpec, SpecDesc) {
 	t12 := append([]uint16{}, tls12Suites...)
 	r.Shuffle(len(t12), func(i, j int) { t12[i], t12[j] = t12[j], t12[i] })
 	cs = append(cs, t12[:1+r.Intn(len(t12))]...)
-	// the proxy's certificate is RSA: make sure one RSA-capable suite is offered
-	cs = append(cs, []uint16{0xc02f, 0xc030, 0x009c, 0xc013}[r.Intn(4)])
+	// the proxy's certificate is RSA: make sure one RSA-capable suite is offered, and one the server may use
+	// for HTTP/2 (RFC 7540 9.2.2 / Appendix A: with only 0x009c or 0xc013 the server negotiates h2 and then,
+	// correctly, ends the connection with GOAWAY(INADEQUATE_SECURITY) - seen as a rare "request failed")
+	cs = append(cs, []uint16{0xc02f, 0xc030}[r.Intn(2)])
+	if r.Intn(2) == 0 {
+		cs = append(cs, []uint16{0x009c, 0xc013}[r.Intn(2)])
+	}
 	for k := r.Intn(4); k > 0; k-- {
 		cs = append(cs, otherSuites[r.Intn(len(otherSuites))])
 	}
@@ -124,6 +129,10 @@ func CustomSpec(r *rand.Rand, alpn []string) (*utls.ClientHelloSpec, SpecDesc) {
 	maybe(25, &utls.ApplicationSettingsExtension{SupportedProtocols: []string{"h2"}})
 	for k := r.Intn(4); k > 0; k-- {
 		id := uint16(2000 + r.Intn(50000))
+		switch id {
+		case 13172, 17513, 30031, 30032: // types whose bodies utls parses strictly (known finding D13): not by accident
+			id++
+		}
 		d := make([]byte, r.Intn(20))
 		r.Read(d)
 		ex = append(ex, &utls.GenericExtension{Id: id, Data: d})
